@@ -167,6 +167,11 @@ def r4(ctx):
     for p in paths:
         for e in p.events:
             if e.kind == "write":
+                tgt = tform(e.args[0])
+                while isinstance(tgt, tuple) and tgt and tgt[0] in ("deref", "ref", "field"):
+                    tgt = tgt[1]
+                if isinstance(tgt, tuple) and tgt and tgt[0] in ("stored_any", "stored", "lookup"):
+                    continue  # an in-place rewrite of a map entry (through &mut V): a map write, not store state
                 bad = "writes %s" % short(e.args[0], 60)
             if e.kind == "call" and not e.name.startswith("core::num") and not e.name.startswith("std::cmp") and "saturating" not in e.name and "::min" not in e.name:
                 bad = bad or None
